@@ -43,6 +43,8 @@ type omniSched struct {
 	Start  int       `json:"start"` // abstract size every log publishes first (default 1)
 	// Partial makes outages partial: the log's checkpoint endpoint keeps answering, everything else (tiles, proofs) fails.
 	Partial bool `json:"partial"`
+	// NoneFirst lists the feeder-less entry before the polled logs whatever the schedule's hash says.
+	NoneFirst bool `json:"nonefirst"`
 }
 
 type omniEvent struct {
@@ -209,7 +211,14 @@ func execOmni(s omniSched, dir string, seed int64) ([]any, error) {
 	w := world.New(p)
 	w = w.ForRun(tag, hashSeed(tag, seed))
 	logs := map[string]*stublog.Log{}
+	// as in the shipped configuration, a log without a feeder (it is only served through the bastion) is listed among the polled ones:
+	// FIRST in every other schedule, last otherwise
+	noneEntry := fmt.Sprintf("  - Origin: verif.example/%s/bastion-only\n    URL: https://bastion-only.invalid\n    PublicKey: %s\n    Feeder: none\n", tag, w.Logs["l1"].Key.VKey())
+	noneFirst := hashSeed(tag, seed)%2 == 0 || s.NoneFirst
 	yaml := "Logs:\n"
+	if noneFirst {
+		yaml += noneEntry
+	}
 	var servers []*httptest.Server
 	defer func() {
 		for _, sv := range servers {
@@ -234,6 +243,9 @@ func execOmni(s omniSched, dir string, seed int64) ([]any, error) {
 			url += "/"
 		}
 		yaml += fmt.Sprintf("  - Origin: %s\n    URL: %s\n    PublicKey: %s\n    Feeder: %s\n", l.Origin, url, l.Key.VKey(), s.Types[i])
+	}
+	if !noneFirst {
+		yaml += noneEntry
 	}
 	omniwitness.ConfigLogs = []byte(yaml)
 	var pers persistence.LogStatePersistence
